@@ -9,7 +9,8 @@ import contracts.tablereaders as TR
 
 F_TF = 'atsim/potentials/tableforms.py'
 F_TFB = 'atsim/potentials/config/_table_form_builder.py'
-FUNCTIONS = [(TR.F_TR, 'TableReaderBase._findIndex'), (TR.F_TR, 'TableReaderBase.getValue'), (TR.F_INIT, 'plotToFile'), (TR.F_CP, '_TableFormSection._parse_xy'),
+import contracts.config_errors as CEc
+FUNCTIONS = [(TR.F_TR, 'TableReaderBase._findIndex'), (TR.F_TR, 'TableReaderBase.getValue'), (TR.F_INIT, 'plotToFile'), (TR.F_CP, '_TableFormSection._parse_xy'), (TR.F_CP, '_TableFormSection._parse_x_y'),
              (TR.F_TR, 'DatReader._populate')]
 SPECSEQS = [TR.plot_rows, TR.data_rows]
 
@@ -63,6 +64,7 @@ MUTANTS = [
     (TR.F_TR, 'TableReaderBase._findIndex', "return idx - 1", "return idx", 'post'),
     (TR.F_INIT, 'plotToFile', "v = lowx + float(i) * step", "v = lowx + float(i + 1) * step", 'preserve/0'),
     (TR.F_CP, '_TableFormSection._parse_xy', "even = not even", "even = even", 'preserve/0'),
+    (TR.F_CP, '_TableFormSection._parse_x_y', "y_string = section['y']", "y_string = section['x']", 'post'),
 ]
 MODULE_MUTANTS = [(TR.F_TR, "      line = line.strip()\n", "      line = line[:-1]\n      line = line.strip()\n", 'terminator-independent')]
 ASSUMPTIONS = ['A6: scipy.interpolate.InterpolatedUnivariateSpline(x, y, ext=1) interpolates the data, is 0 outside [x0, xn], and .derivative() is its derivative (bounded stand-in: oracle on random strictly increasing data)',
